@@ -715,6 +715,22 @@ func envHistoryCase(vs []reflect.Value) []Case {
 			}
 		}()
 		out = append(out, c)
+		// the converted value of every step is well formed on its own (a component typed by an
+		// earlier conversion of the same Go type is not)
+		w := Case{Human: human + " (value)", Want: "wf", Tags: []string{"stability:env-history-wf"}}
+		func() {
+			defer func() {
+				if r := recover(); r != nil {
+					w.OracleID, w.Oracle = "conv-panic", fmt.Sprintf("conversion panics: %v", r)
+				}
+			}()
+			if vl, err := conv.ValOf(x); err == nil {
+				if wf := safely(func() string { return wfVal(vl, nil, "v") }); wf != "" {
+					w.OracleID, w.Oracle = "conv-wf", "ValOf yields an ill-formed value: "+wf
+				}
+			}
+		}()
+		out = append(out, w)
 	}
 	return out
 }
